@@ -211,16 +211,37 @@ def gen(item, rng, tier):
             # checked for 'failing condition => no register, flag or memory change' and for the ITSTATE advance
             slots.append({'t': 'any', 'w': rand_dp32(rng), 'name': 'dp32'})
         elif t == 'multi':
-            kindm = rng.choice(['stm', 'ldm', 'ldrd', 'strd', 'nop', 'nopw', 'msr_x', 'msr_x'] + ([] if sp_loaded else ['push', 'pop', 'push', 'pop', 'popw']))
-            if kindm in ('push', 'pop', 'popw'):
+            kindm = rng.choice(['stm', 'ldm', 'ldrd', 'strd', 'nop', 'nopw', 'msr_x', 'msr_x', 'hi16', 'hi16', 'adr', 'ldrex', 'misc32'] +
+                               ([] if sp_loaded else ['push', 'pop', 'push', 'pop', 'popw', 'spadj']))
+            if kindm in ('push', 'pop', 'popw', 'spadj'):
                 stack_used = True                     # (only in blocks in which no slot loads SP from memory)
             if kindm in ('stm', 'ldm'):
                 lst = rng.getrandbits(5) | rng.choice([1, 2, 3])
                 if bin(lst).count('1') < 2:
                     lst |= 0x18
                 w = T.ldstm_w(kindm == 'ldm', 6, lst, db=0, w=0)            # base r6 (data page), no write-back
-            elif kindm in ('push', 'pop'):
-                w = (0xB400 if kindm == 'push' else 0xBC00) | (rng.getrandbits(5) | 1)
+            elif kindm == 'hi16':
+                # 16-bit forms with high registers: ADD Rdn,Rm / MOV Rd,Rm (neither sets flags)
+                lo_, hi_ = rng.randrange(0, 6), rng.choice([8, 9, 10, 11, 12])
+                hd = rng.choice([8, 12]) & 7           # high destination: r8 or r12 only (r9-r11 hold the branch target and the table indices)
+                w = rng.choice([0x4400 | hi_ << 3 | lo_, 0x4600 | hi_ << 3 | lo_, 0x4680 | lo_ << 3 | hd, 0x4480 | lo_ << 3 | hd])
+            elif kindm == 'adr':
+                w = rng.choice([0xA000 | rng.randrange(6) << 8 | rng.getrandbits(8), 0xA800 | rng.randrange(6) << 8 | rng.getrandbits(8),
+                                0xF20F0000 | rng.randrange(6) << 8 | rng.getrandbits(8), 0xF2AF0000 | rng.randrange(6) << 8 | rng.getrandbits(8)])
+            elif kindm == 'spadj':
+                w = rng.choice([0xB000, 0xB080]) | rng.randrange(1, 8)               # ADD sp,#imm / SUB sp,#imm
+            elif kindm == 'ldrex':
+                w = rng.choice([0xE8560F00 | rng.randrange(6) << 12 | rng.randrange(4), 0xE8460000 | rng.randrange(4) << 12 | 5 << 8 | rng.randrange(4),
+                                0xF3BF8F2F, 0xF896F000 | rng.getrandbits(8)])       # LDREX / STREX r5,rt,[r6] / CLREX / PLD [r6,#imm]
+            elif kindm == 'misc32':
+                lo = lambda: rng.randrange(0, 6)
+                rm_ = lo()
+                w = rng.choice([0xFA90F080 | rm_ << 16 | lo() << 8 | rm_, 0xFA90F0A0 | rm_ << 16 | lo() << 8 | rm_,       # REV / RBIT
+                                0xFB90F0F0 | lo() << 16 | lo() << 8 | lo(), 0xFBB0F0F0 | lo() << 16 | lo() << 8 | lo(),   # SDIV / UDIV
+                                0xFB000010 | lo() << 16 | lo() << 12 | lo() << 8 | lo(),                                  # MLS
+                                0xFA40F080 | lo() << 16 | lo() << 8 | rng.getrandbits(2) << 4 | lo(),                     # SXTAB
+                                0xFA1FF080 | lo() << 8 | rng.getrandbits(2) << 4 | lo(),                                  # UXTH
+                                0xFB700000 | lo() << 16 | lo() << 12 | lo() << 8 | lo()])                                 # USADA8
             elif kindm in ('push', 'pop'):
                 w = (0xB400 if kindm == 'push' else 0xBC00) | (rng.getrandbits(5) | 1)
             elif kindm == 'popw':
@@ -257,9 +278,9 @@ def gen(item, rng, tier):
             slots.append({'t': 'ldr', 'w': T.ldst_imm('ldr', rd, 6, off), 'rd': rd, 'addr': P.DBASE + 4 * off})
         elif t == 'b':
             # a branch as last slot, skipping the 16-bit marker that follows the block: B (T2), B.W (T4), BL, BX Rm, BLX Rm
-            form = rng.choice(['b', 'b', 'bw', 'bl', 'bx', 'blx', 'movpc', 'ldrpc', 'ldrpc16'] + ([] if (sp_loaded or stack_used) else ['poppc', 'poppc', 'poppcw']))
+            form = rng.choice(['b', 'b', 'bw', 'bl', 'bx', 'blx', 'movpc', 'ldrpc', 'tbb', 'tbh'] + ([] if (sp_loaded or stack_used) else ['poppc', 'poppc', 'poppcw']))
             w = {'b': T.b(4), 'bw': 0xF000B801, 'bl': 0xF000F801, 'bx': T.bx(9), 'blx': 0x4780 | 9 << 3, 'movpc': 0x46CF,
-                 'ldrpc': 0xF8D6F0FC, 'ldrpc16': 0xF8D6F0FC, 'poppc': 0xBD10, 'poppcw': 0xE8BD8010}[form]           # POP {r4,pc}: the compiler's conditional return          # LDR pc,[r6,#0xFC]: the word there is the target (Thumb bit set)
+                 'ldrpc': 0xF8D6F0FC, 'tbb': 0xE8D6F00A, 'tbh': 0xE8D6F01B, 'poppc': 0xBD10, 'poppcw': 0xE8BD8010}[form]           # POP {r4,pc}: the compiler's conditional return          # LDR pc,[r6,#0xFC]: the word there is the target (Thumb bit set)
             slots.append({'t': 'b', 'w': w, 'form': form, 'name': 'branch_' + form})
     # optional prologue / epilogue: the very same MOVS halfwords that sit in the block are also executed outside it, where they
     # must set N/Z (and inside they must not) — decode-time context must not leak from one execution to the next
@@ -314,6 +335,10 @@ def gen(item, rng, tier):
         st['R']['R9usr'] = tgt | 1
         slots[-1]['target'] = tgt
         G.set_data(devices[2], 0x4FC, (tgt | 1).to_bytes(4, 'little'))
+        # TBB [r6, r10] / TBH [r6, r11, LSL #1]: r10 = 0xF8, r11 = 0x7A (table entries at DBASE+0xF8 / +0xF4), entry 1 = skip the 16-bit marker
+        st['R']['R10usr'], st['R']['R11usr'] = 0xF8, 0x7A
+        G.set_data(devices[2], 0x4F8, bytes([1]))
+        G.set_data(devices[2], 0x4F4, (1).to_bytes(2, 'little'))
         if slots[-1].get('form') in ('poppc', 'poppcw'):
             top = P.STACK_TOP['usr' if mode in ('usr', 'sys') else 'svc']
             G.set_data(devices[3], top - G.STACKS, (0x4444).to_bytes(4, 'little') + (tgt | 1).to_bytes(4, 'little'))
